@@ -850,6 +850,12 @@ class Engine(
                         # right, reflecting the fact that the derived engine is
                         # supposed to have final say over how we convert
                         # literals.
+                        if step < 0:
+                            if start <= stop_exclusive:
+                                return sqlalchemy.sql.literal(False)
+                            # Express the same values as an ascending range.
+                            smallest = start + ((start - stop_exclusive - 1) // -step) * step
+                            start, stop_exclusive, step = smallest, start + 1, -step
                         stop_inclusive = stop_exclusive - 1
                         if start == stop_inclusive:
                             return sql_item == self.convert_column_literal(start)
@@ -860,13 +866,17 @@ class Engine(
                                 self.convert_column_literal(stop_inclusive),
                             )
                             if step != 1:
-                                return sqlalchemy.sql.and_(
-                                    *[
-                                        target,
-                                        sql_item % self.convert_column_literal(step)
-                                        == self.convert_column_literal(start % step),
-                                    ]
-                                )
+                                if start >= 0:
+                                    remainder = sql_item % self.convert_column_literal(
+                                        step
+                                    ) == self.convert_column_literal(start % step)
+                                else:
+                                    # SQL's % truncates toward zero; keep the
+                                    # dividend non-negative within the range.
+                                    remainder = (
+                                        sql_item - self.convert_column_literal(start)
+                                    ) % self.convert_column_literal(step) == self.convert_column_literal(0)
+                                return sqlalchemy.sql.and_(*[target, remainder])
                             else:
                                 return target
                     case ColumnExpressionSequence(items=items):
